@@ -19,20 +19,27 @@
    timeout asked for); computing and delivered/corrupted frames are instantaneous.
    The target's own deadline is assumed not to expire during the conversation.
 
-   The spec models the code.  At three places the code as it is violates the property
-   (C04 findings); there the spec admits the behaviour of the code as it is *and* the
-   repaired behaviour, selected by the variant set v \in Vs, and the property
-   invariants flag the former:
+   The spec models the code.  At four places the code violates (or violated) the property
+   (C04 findings); there the spec admits the defective behaviour *and* the repaired one,
+   selected by the variant set v \in Vs, and the property invariants flag the former:
      "ack"  request_retransmission() accepts the retransmitted ACK while the
-            initiator is chaining                     (as is: ProtocolError, dep.py:323-326)
+            initiator is chaining       (defect fixed in /repo a92f998; dep.py request_retransmission)
      "atn"  the ATN request carries the DID when one is in use
-                                                      (as is: never, dep.py:285-288)
+                                        (defect fixed in /repo 9605e14; dep.py ATN())
      "miu"  (configuration, cf.miuT) the target's MIU accounts for the DID byte
-                                                      (as is: LR-3, dep.py:452)
+                                        (defect fixed in /repo ea8695e; invariant MiuOk of Trace_NfcDep)
+     "did0" did=0 (open): the initiator announces "no DID" in the ATR_REQ but still sends a DID
+            byte 0 in every PDU (`self.did is not None`); the target holds did=None and its DID
+            filter ignores everything.  Variant "did0": the target treats DID 0 as "no DID".
+   The defective branches of "ack", "atn" and "miu" CAN NOW GO (the fixes are in /repo); they
+   are kept only so that a regression is reported by OneFaultOk / MiuOk / FrameFits under the
+   canonical key of the original finding instead of a bare conformance mismatch.
 *)
 EXTENDS Naturals, Sequences, SequencesExt, FiniteSets, TLC
 
-CONSTANTS Cfgs,           \* configurations [lrI, lrT, did, nad, miuI, miuT, R] to explore
+CONSTANTS Cfgs,           \* configurations [lrI, lrT, did, tdid, did0, nad, miuI, miuT, R] to explore
+                          \*   did: the initiator sends a DID byte; tdid: the target holds a DID (ATR DID > 0);
+                          \*   did0: the DID value is 0 (did /\ ~tdid)
           Lens,           \* payload lengths (bytes) the applications choose from
           Ds,             \* exchange() timeouts in ticks the initiator application chooses from
           MaxEx,          \* exchanges per conversation                     (model checking bound)
@@ -139,7 +146,7 @@ IRecv(x, f, c, v) ==
 
 \* ------------------------------------------------------------------ target (dep.py:511-609)
 TMore(y, c) == y.n - y.off > c.miuT
-TInf(y, c) == Fr("TI", "INF", y.pni, TMore(y, c), c.did, FALSE, y.id, y.off, Min2(c.miuT, y.n - y.off))
+TInf(y, c) == Fr("TI", "INF", y.pni, TMore(y, c), y.did, FALSE, y.id, y.off, Min2(c.miuT, y.n - y.off))
 TErr(y) == [y EXCEPT !.st = "err"]
 
 \* the receive part of exchange(): req is the newest request                    dep.py:551-563
@@ -168,8 +175,9 @@ TNewReq(y, f, c) ==
 
 \* a frame f was delivered to the target waiting in send_dep_res_recv_dep_req()  dep.py:576-609
 \* result: new target state, response frame (NoFrame: silence), what it did
-TRecv(y, f, c) ==
-    CASE f.did # y.did -> [t |-> y, out |-> NoFrame, did |-> "ignored"]          \* DID filter
+TRecv(y, f, c, v) ==
+    CASE f.did # y.did /\ ~(c.did0 /\ "did0" \in v) ->
+           [t |-> y, out |-> NoFrame, did |-> "ignored"]                          \* DID filter (dep.py:588)
       [] f.t \in {"RLS", "DSL"} ->
            [t |-> [y EXCEPT !.st = "none"],
             out |-> Fr("TI", f.t, 0, FALSE, y.did, FALSE, 0, 0, 0), did |-> "release"]
@@ -182,7 +190,7 @@ TRecv(y, f, c) ==
 I0 == [st |-> "idle", pni |-> 0, id |-> 0, n |-> 0, off |-> 0, ph |-> "tx", mode |-> "req", try |-> 0,
        rem |-> 0, D |-> 0, rx |-> <<>>, err |-> "", rel |-> "RLS", fresh |-> FALSE]
 T0(c) == [st |-> "wait", pni |-> NoPni, res |-> NoFrame, ph |-> "first", id |-> 0, n |-> 0, off |-> 0,
-          rx |-> <<>>, did |-> c.did]
+          rx |-> <<>>, did |-> c.tdid]
 
 InitWith(c) ==
     /\ cf = c
@@ -214,7 +222,7 @@ Cost(x) == IF x.st = "rel" THEN 0 ELSE Min2(cf.R, x.rem)
 Outcome(fr, f, v) ==
     IF fr.dir = "IT"
     THEN IF f = "deliver" /\ t.st = "wait"
-         THEN LET r == TRecv(t, fr, cf) IN
+         THEN LET r == TRecv(t, fr, cf, v) IN
               IF r.out # NoFrame \/ r.t.st = "ret"
               THEN [i |-> i, t |-> r.t, out |-> r.out, last |-> r.did, cost |-> 0, quiet |-> TRUE]
               ELSE [i |-> Silence(i), t |-> r.t, out |-> NoFrame, last |-> r.did, cost |-> Cost(i), quiet |-> FALSE]
